@@ -375,6 +375,8 @@ def explicit_cases():
     # in-process builtins with a dup form next to a file target, in both orders
     def out_r(fd, target):
         return {"k": "out", "fd": fd, "append": False, "target": target, "spaced": True, "explicit1": False}
+    def app_r(fd, target):
+        return dict(out_r(fd, target), append=True)
     dup21 = {"k": "dup", "from": 2, "to": 1}
     dup12 = {"k": "dup", "from": 1, "to": 2, "explicit1": True}
     learn = [{"stages": [{"kind": "builtin", "text": "alias zz='true'"}], "probe": False, "learn": "define"},
@@ -387,7 +389,14 @@ def explicit_cases():
                          # an unopenable target after a dup form, and after a good target
                          ("alias", [dup21, out_r(1, "nodir/x")]), ("alias", [dup12, out_r(2, "d0")]),
                          ("alias", [out_r(1, "f1"), dup21, out_r(2, "nodir/y")]),
-                         ("cd /nonexistent_zz", [dup21, out_r(2, "f0/x")])):
+                         ("cd /nonexistent_zz", [dup21, out_r(2, "f0/x")]),
+                         # the same stream twice, the second time as a dup form (the file target is superseded,
+                         # truncated or kept as it is for an append, and must not receive the output), and a dup
+                         # form whose source was opened for append (round 7)
+                         ("alias", [out_r(1, "f1"), dup12]), ("alias", [app_r(2, "f1"), dup12]),
+                         ("alias", [app_r(1, "f1"), dup12]),
+                         ("cd /nonexistent_zz", [out_r(2, "f2"), dup21]), ("cd /nonexistent_zz", [app_r(1, "f2"), dup21]),
+                         ("cd /nonexistent_zz", [app_r(2, "f2"), dup21])):
         sc = {"prop": "C04", "lines": [dict(l) for l in learn] + [
             {"stages": [{"kind": "builtin", "text": text, "redirs": [dict(r) for r in redirs]}], "probe": False}, dict(probe)],
             "externals": [], "faults": {}, "files": {"in0": "input zero\n", "in1": "x", "f1": "old-f1", "f2": "old-f2"},
